@@ -269,7 +269,9 @@ def make_cachey(seed: int):
         if r.random() < 0.15:
             sc[k] = bytearray(sc[k])
     sc['timestamp'] = NOW + r.choice([0, 5, -5])
-    if r.random() < 0.2:               # a timestamp of another type: the time checks must fail without touching it
+    if r.random() < 0.1:               # falsy / tiny embedder timestamps are values like any other
+        sc['timestamp'] = r.choice([0, 0, 1, -1])
+    elif r.random() < 0.2:             # a timestamp of another type: the time checks must fail without touching it
         sc['timestamp'] = r.choice([float(NOW), NOW + 0.75, str(NOW), NOW.to_bytes(4, 'big'), bytearray(NOW.to_bytes(4, 'big')), [NOW]])
     for k, v in [('note', b'\x01'), ('memo', 'text'), ('n', 7), ('f', 1.5), ('lst', [b'a', b'b']), ('E', b'e'), ('P', b'p'),
                  ('x', b'x'), ('IR', b'ir'), ('s', b's')]:
@@ -354,3 +356,70 @@ def make_forked(seed: int):
         else kw['scripts'][:-1] + [kw['scripts'][-1] + extra]
     kw['forks'] = forks
     return kw
+
+
+# ----------------------------------------------------------------------------- C10
+def make_intops(seed: int):
+    """Integer (and int <-> float) instructions on boundary and huge operands: 2^k + d on both sides of every byte
+    boundary up to 8192 bits, random big integers, signed tape operands (negative, zero, padded), item lengths around
+    2^7 / 2^8 for SIZE - so that 'integer instructions compute exact results at any magnitude' is judged instruction
+    by instruction against the specification's limb arithmetic / reference integers."""
+    from .progs import push, op, b1
+    from ..ref.opsem import enc
+    r = random.Random(seed ^ 0xC10)
+
+    def big():
+        c = r.random()
+        if c < 0.4:
+            k = r.choice([7, 8, 15, 16, 31, 32, 52, 53, 54, 55, 56, 63, 64, 65, 127, 128, 255, 256, 511, 512, 1023, 1024, 4095, 4096, 8000])
+            return r.choice([1, -1]) * (2 ** k + r.randrange(-3, 4))
+        if c < 0.7:
+            return r.randrange(-2 ** 17, 2 ** 17)
+        return r.choice([1, -1]) * r.getrandbits(r.randrange(1, 8100))
+
+    def small_div():
+        return r.choice([1, -1, 2, -2, 3, -3, 7, 10, -10, 127, 128, -128, -129, 255, 256, 0, 65535, -65536])
+
+    def item(n):
+        b = enc(n)
+        if r.random() < 0.1:                       # a padded (non-minimal) encoding decodes to the same integer
+            b = (b'\xff' if n < 0 else b'\x00') * r.randrange(1, 3) + b
+        return push(b)
+
+    parts = []
+    for _ in range(r.randrange(1, 5)):
+        kind = r.choice(['add', 'sub', 'mult', 'div', 'divs', 'mod', 'mods', 'size', 'less', 'leq', 'i2f', 'f2i', 'depth'])
+        a, b = big(), big()
+        if kind in ('add', 'sub', 'mult'):
+            n = r.choice([2, 2, 3])
+            parts.append(b''.join(item(big()) for _ in range(n)) + op({'add': 'ADD_INTS', 'sub': 'SUBTRACT_INTS', 'mult': 'MULT_INTS'}[kind], b1(n)))
+        elif kind in ('div', 'mod'):
+            d = enc(r.choice([small_div(), small_div(), big() >> r.randrange(0, 4000) or 1]))
+            d = d if len(d) < 256 else enc(small_div())
+            if r.random() < 0.1:
+                d = (b'\xff' if d[0] >= 128 else b'\x00') + d
+            parts.append(item(a) + op('DIV_INT' if kind == 'div' else 'MOD_INT', b1(len(d)), d))
+        elif kind in ('divs', 'mods'):
+            dv = r.choice([small_div(), big() >> r.randrange(0, 6000) or 1, big()])
+            # OP_DIV_INTS: divisor first (top), then dividend - per the op reference
+            parts.append(item(a) + item(dv) + op('DIV_INTS' if kind == 'divs' else 'MOD_INTS'))
+        elif kind == 'size':
+            parts.append(push(r.randbytes(r.choice([0, 1, 127, 128, 129, 200, 255, 256, 257, 1000]))) + op('SIZE')
+                         + r.choice([b'', push(b'\x01') + op('ADD_INTS', b1(2)), item(100) + op('LESS')]))
+        elif kind in ('less', 'leq'):
+            if r.random() < 0.3:
+                b = a + r.choice([-1, 0, 1])
+            parts.append(item(a) + item(b) + op('LESS' if kind == 'less' else 'LESS_OR_EQUAL'))
+        elif kind == 'i2f':
+            parts.append(item(r.choice([a, r.randrange(-2 ** 25, 2 ** 25), 2 ** 24 + 1, 2 ** 127, 2 ** 128, -2 ** 128])) + op('INT_TO_FLOAT'))
+        elif kind == 'f2i':
+            import struct
+            f = r.choice([0.0, -0.0, 1.5, -1.5, 2.0 ** 31, -2.0 ** 63, 3.4028234663852886e38, 1e-45, float('inf'), float('nan'), r.uniform(-1e9, 1e9)])
+            parts.append(push(struct.pack('!f', f)) + op('FLOAT_TO_INT'))
+        else:
+            parts.append(op('DEPTH'))
+        if r.random() < 0.5:
+            parts.append(op('POP0'))
+    ms = r.choice([1024, 1024, 1100, 2048, 32, 129])
+    return dict(scripts=[b''.join(parts)], cache_vals={}, auth=False, contracts={}, plugins={}, additional_flags={},
+                max_items=1024, max_item_size=ms, callstack_limit=128, nsig=0)
